@@ -603,7 +603,7 @@ Proof.
     rewrite Hsv, last_z_snoc, removelast_snoc.
     destruct (s_off s =? s_off x) eqn:Heq; [|left; reflexivity]. right.
     assert (s = x).
-    { eapply live_unique; eauto; [|lia]. apply in_second_order. rewrite Hsv. apply in_or_app. right. left. reflexivity. }
+    { apply (live_unique l x s HWI Hx); [|lia]. apply in_second_order. rewrite Hsv. apply in_or_app. right. left. reflexivity. }
     subst s. assert (Hxl : is_free x = false) by (destruct HL; eauto).
     eexists. split; [reflexivity|]. rewrite Hsv in HW.
     pose proof (drop_last_sv_W _ _ _ _ _ _ _ _ _ _ HW Hxl) as HW1.
@@ -620,7 +620,7 @@ Proof.
   rewrite Hf, Hw, app_assoc, last_z_snoc, removelast_snoc.
   destruct (s_off s =? s_off x) eqn:Heq; [|left; reflexivity]. right.
   assert (s = x).
-  { eapply live_unique; eauto; [|lia].
+  { apply (live_unique l x s HWI); [| |lia].
     - unfold live. rewrite Hsv. cbn [lives filter]. rewrite app_nil_r. exact Hx.
     - apply in_window_order. rewrite Hw. apply in_or_app. right. left. reflexivity. }
   subst s. assert (Hxl : is_free x = false) by (destruct HL; eauto).
@@ -629,8 +629,9 @@ Proof.
   unfold marked, same_cfg. lsimp. split; [|split; [auto|split; [reflexivity|]]].
   - apply (WInv_intro _ (prefix l) win0); lsimp; auto. rewrite Hm. exact HW1.
   - exists (lives win0), []. unfold live at 1. rewrite Hsv, Hw, lives_snoc_live by assumption.
-    split; [reflexivity|].
-    rewrite (live_of_split _ (prefix l) win0); lsimp; auto. rewrite Hsv. reflexivity.
+    cbn [lives filter]. rewrite !app_nil_r. split; [reflexivity|].
+    rewrite (live_of_split _ (prefix l) win0); lsimp; auto. rewrite Hsv. cbn [lives filter].
+    rewrite app_nil_r. reflexivity.
 Qed.
 
 Lemma mark_mid_win_W pre a x b sv m sf nm ns size g :
@@ -685,8 +686,9 @@ Proof.
   destruct (sort_find_sorted s_off (prefix l) (window l) offset (cmp_first l offset) (window_sorted _ HI))
     as (k & found & Hsf & Ht & Hn').
   { intros i. unfold cmp_first. rewrite Hf at 1. rewrite Hn. reflexivity. }
-  exists k, found. replace (zlen (first l) - l_null_begin l) with (zlen (window l))
-    by (rewrite Hf at 2; rewrite zlen_app; lia).
+  assert (Hz : zlen (first l) - l_null_begin l = zlen (window l)).
+  { pose proof (f_equal zlen Hf) as E. rewrite zlen_app in E. lia. }
+  exists k, found. rewrite Hz.
   split; [exact Hsf|]. split; [|exact Hn'].
   intros Hfound. destruct (Ht Hfound) as (a & s & b & Hw & Hk & Hs). exists a, s, b.
   repeat split; auto. rewrite Hf, Hw, <- Hn, <- Hk, nth_z_app_r by apply zlen_nonneg. apply nth_z_mid.
